@@ -504,7 +504,25 @@ def translate_penalize(fn):
     _expect(body[0], 'b, x, I, D = _init_bc(A, b, x, I, D)', 'penalize[0]')
     _expect(body[1], 'Aout = A if overwrite else A.copy()', 'penalize[1]')
     _expect(body[2], 'd = Aout.diagonal()', 'penalize[2]')
-    _expect(body[3], 'if epsilon is None:\n    epsilon = 1e-10 / np.linalg.norm(d[D], np.inf).astype(float)', 'penalize default epsilon')
+    # the default penalty parameter: any block that only computes local scalars and binds epsilon (its VALUE is a runtime
+    # matter checked by the oracle; the model is parametrised by w = 1/epsilon)
+    blk = body[3]
+    if not (isinstance(blk, ast.If) and t2.src(blk.test) == 'epsilon is None' and not blk.orelse):
+        raise TranslateError('penalize: default epsilon block')
+
+    def only_local_scalars(stmts):
+        names = set()
+        for s in stmts:
+            if isinstance(s, ast.Assign) and len(s.targets) == 1 and isinstance(s.targets[0], ast.Name):
+                names.add(s.targets[0].id)
+            elif isinstance(s, ast.If):
+                names |= only_local_scalars(s.body) | only_local_scalars(s.orelse)
+            else:
+                raise TranslateError('penalize default epsilon block: ' + t2.src(s)[:80])
+        return names
+    assigned = only_local_scalars(blk.body)
+    if 'epsilon' not in assigned or assigned & {'Aout', 'd', 'D', 'b', 'x', 'I', 'A'}:
+        raise TranslateError('penalize default epsilon block assigns ' + repr(sorted(assigned)))
     mv = MvTr({'Aout': ('M', 'mat'), 'D': ('D', 'idx'), 'epsilon': ('w', 'invw')})
     for s in body[2:3] + body[4:6]:
         mv.stmt(s)
